@@ -38,7 +38,10 @@ def _setup(E, templates, w=None, inf_on=None, lo=-10, hi=10):
     obj = t["objectives"][E.choice("objective", len(t["objectives"]))]
     direction = E.pick("direction", ["max", "min"])
     ids = [r.id for r in m.reactions]
-    if inf_on and tid == "T1":
+    if inf_on == "some" and tid == "T1":
+        networks.symbolic_bounds(E, m, which=["EX_A", "DM_B"], lo=lo, hi=hi, inf=True)
+        networks.symbolic_bounds(E, m, which=["R1"], lo=lo, hi=hi, inf="ub")
+    elif inf_on and tid == "T1":
         networks.symbolic_bounds(E, m, lo=lo, hi=hi, inf=True)
     elif inf_on:
         k = E.choice("inf_reaction", len(ids), ids)
@@ -162,7 +165,12 @@ def c04_fba(E, templates=("T1", "T2", "T7"), inf_on=False):
 
 
 def c04_inf(E):
-    """infinite bounds: T1 with every bound finite-or-infinite (unbounded LPs occur), T2 with one such reaction"""
+    """infinite bounds: T1 with the bounds of EX_A, DM_B and the upper bound of R1 finite-or-infinite (unbounded LPs occur)"""
+    return c04_fba(E, templates=("T1",), inf_on="some")
+
+
+def c04_inf_thorough(E):
+    """T1 with every bound finite-or-infinite, T2 with one such reaction (every choice)"""
     return c04_fba(E, templates=("T1", "T2"), inf_on=True)
 
 
@@ -219,8 +227,10 @@ HARNESSES = [
       bounds="templates T1,T2,T7 (3-4 reactions, 2 metabolites, non-unit stoichiometry in T7); every flux bound a "
              "symbolic real in [-10,10] with lb<=ub; every template objective (incl. two-reaction, coefficient 2) x "
              "max/min; optimize, optimize(raise_error), slim_optimize(error_value symbolic/0.0/nan/None), accessors"),
-    H("c04_inf", c04_inf, quick=dict(max_paths=5000, time_budget=50), thorough=dict(max_paths=100000, time_budget=300),
-      bounds="T1,T2; one reaction (every choice) with each bound finite symbolic / +inf / -inf, the others finite symbolic"),
+    H("c04_inf", c04_inf, tiers=("quick",), quick=dict(max_paths=8000, time_budget=60),
+      bounds="T1; lower bounds finite symbolic or -inf, upper bounds finite symbolic or +inf (R1 lower bound finite)"),
+    H("c04_inf_thorough", c04_inf_thorough, tiers=("thorough",), thorough=dict(max_paths=200000, time_budget=400),
+      bounds="T1 every bound finite-or-infinite; T2 one reaction (every choice) finite-or-infinite, the others finite symbolic"),
     H("c04_sense_snapshot", c04_sense_snapshot, quick=dict(max_paths=4000, time_budget=40),
       thorough=dict(max_paths=50000, time_budget=200),
       bounds="T2,T7; one symbolic reaction (every choice); objective_sense x direction; one later edit + re-optimisation"),
